@@ -427,19 +427,23 @@ Proof.
   apply fa_direct with (k := 0%nat); [simpl; auto|vm_compute; reflexivity].
 Qed.
 
+Definition after (W : workload) (s : state) (l : label) : state :=
+  match step W s l with Some s' => s' | None => s end.
+Lemma after_some : forall W s l, is_some (step W s l) = true -> step W s l = Some (after W s l).
+Proof. intros W s l H. unfold after. destruct (step W s l); [reflexivity|discriminate]. Qed.
+
 (* a launch step whose job has a job dependency (launch_after_deps), and a step at which wait()
    completes by raising (wait_sound, exit_reports) *)
 Example ex_launch_and_wait :
-  let s0 := final W_fail all_fixed L_fail in
-  exists s1 s2 s3 s4 l1 l2,
-    reachable W_fail s1 /\ step W_fail s1 l1 = Some s2 /\ launch_step s1 s2 3 /\ In (DJob 2) (deps W_fail 3) /\
-    reachable W_fail s3 /\ step W_fail s3 l2 = Some s4 /\ wait_completes s3 s4 /\ wst s4 = WRaised.
+  exists s1 s3 l1 l2,
+    reachable W_fail s1 /\ is_some (step W_fail s1 l1) = true /\ launch_step s1 (after W_fail s1 l1) 3 /\
+    In (DJob 2) (deps W_fail 3) /\
+    reachable W_fail s3 /\ is_some (step W_fail s3 l2) = true /\ wait_completes s3 (after W_fail s3 l2) /\
+    wst (after W_fail s3 l2) = WRaised.
 Proof.
-  simpl.
   set (la := L_fail ++ [LDeliver 3]%nat).
   set (lb := L_fail ++ L_fail_end).
-  exists (final W_fail all_fixed la), (final W_fail all_fixed (la ++ [LRun 0])),
-         (final W_fail all_fixed (removelast lb)), (final W_fail all_fixed lb), (LRun 0), (LRun 0).
+  exists (final W_fail all_fixed la), (final W_fail all_fixed (removelast lb)), (LRun 0), (LRun 0).
   split; [apply reachable_final; vm_compute; reflexivity|].
   split; [vm_compute; reflexivity|]. split; [vm_compute; reflexivity|]. split; [simpl; auto|].
   split; [apply reachable_final; vm_compute; reflexivity|].
